@@ -31,6 +31,88 @@ def valuations(names):
         yield dict(zip(names, combo))
 
 
+def stack_operand_rule(ctx, R, L, sem):
+    """push / pop whose operand is the stack pointer or is addressed through it (shared by C04 and C08): IA-32 computes the
+    address of a pop destination AFTER incrementing esp, reads a push source BEFORE decrementing it, pushes the old esp and
+    loads esp from the popped value.  The semantic functions are lifted on these operand terms and the addresses evaluated."""
+    from ..lifter import TMem, TOp, TId, TInt, ModVal, InfoObj
+    I = L.I
+    esp = TId('esp', 32, is_reg=True)
+
+    def mem(disp, size=32):
+        return TMem(TOp('+', [esp, TInt(ModVal(32, disp))]), size)
+    ESP0 = 0x2000
+    val = {'esp': ESP0, 'ebx': 0x10}
+
+    def addr(t):
+        v, _ = eval_small(t, val)
+        return v
+    cases = []
+    for name in ('pop', 'push'):
+        f = L.mnemo_func.get(name)
+        if f is None:
+            raise AnalysisError('ia32_sem.mnemo_func has no %r' % name)
+        cases.append((name, f))
+    for name, f in cases:
+        for form, arg in (('[esp+8]', mem(8)), ('[esp]', TMem(esp, 32)), ('esp', esp), ('[esp+8] 16-bit', mem(8, 16))):
+            opmode = 'u16' if '16-bit' in form else 'u32'
+            size = 2 if opmode == 'u16' else 4
+            inst = 'stack:%s %s' % (name, form)
+            try:
+                res = I.run(f, [InfoObj(opmode, 'u32'), arg])
+            except LiftUnknown as e:
+                raise AnalysisError('%s is outside the modelled subset on operand %s: %s' % (name, form, e))
+            for dec, tmpl in res:
+                if isinstance(tmpl, LiftError) or not isinstance(tmpl, list):
+                    R.violation(inst, 'stack:%s:%s:raises' % (name, form), 'lifting %s %s raises %s' % (name, form, getattr(tmpl, 'exc', tmpl)), where(sem, f.node))
+                    continue
+                problems = []
+                try:
+                    esp_affs = [a for a in tmpl if a.kind == 'Aff' and a.dst.kind == 'Id' and a.dst.name == 'esp']
+                    esp16 = [a for a in tmpl if a.kind == 'Aff' and a.dst.kind == 'Slice' and a.dst.arg.kind == 'Id' and a.dst.arg.name == 'esp']
+                    mem_w = [a for a in tmpl if a.kind == 'Aff' and a.dst.kind == 'Mem']
+                    if name == 'pop':
+                        if form.startswith('[esp'):
+                            d = 8 if '+8' in form else 0
+                            if len(mem_w) != 1:
+                                problems.append('%d memory writes' % len(mem_w))
+                            else:
+                                got = addr(mem_w[0].dst.arg) & 0xffffffff
+                                want = ESP0 + size + d
+                                if got != want and not (opmode == 'u16' and (got & 0xffff) == (want & 0xffff)):
+                                    problems.append('the value is stored at esp%+d; the destination address is computed after esp is incremented by %d: esp%+d' % (got - ESP0, size, want - ESP0))
+                                src = mem_w[0].src
+                                if not (src.kind == 'Mem' and (addr(src.arg) & 0xffff) == (ESP0 & 0xffff)):
+                                    problems.append('the popped value is not read at the old top of stack')
+                        elif form == 'esp':
+                            if len(esp_affs) != 1:
+                                problems.append('esp is assigned %d times (pop esp loads esp with the popped value, nothing else)' % len(esp_affs))
+                            elif not (esp_affs[0].src.kind == 'Mem' and addr(esp_affs[0].src.arg) == ESP0):
+                                problems.append('esp does not receive the value at the old top of stack')
+                    else:
+                        if len(mem_w) != 1:
+                            problems.append('%d memory writes' % len(mem_w))
+                        else:
+                            got = addr(mem_w[0].dst.arg)
+                            if (got & 0xffff) != ((ESP0 - size) & 0xffff):
+                                problems.append('the value is pushed at esp%+d instead of esp-%d' % (got - ESP0, size))
+                            src = mem_w[0].src
+                            if form.startswith('[esp'):
+                                d = 8 if '+8' in form else 0
+                                if not (src.kind == 'Mem' and addr(src.arg) == ESP0 + d):
+                                    problems.append('the pushed operand is not read at esp%+d with the value esp has before the push' % d)
+                            elif form == 'esp':
+                                if not (src.kind == 'Id' and src.name == 'esp'):
+                                    problems.append('push esp does not push the value esp has before the push')
+                except Refuse as e:
+                    raise AnalysisError('%s %s: address outside the evaluable subset: %s' % (name, form, e))
+                if problems:
+                    R.violation(inst, 'stack:%s:%s:%s' % (name, form, problems[0][:50]), '%s %s: %s' % (name, form, '; '.join(problems)), where(sem, f.node),
+                                witness='8f 44 24 08 (pop DWORD PTR [esp+8])' if name == 'pop' else None)
+                else:
+                    R.ok(inst, sample='%s %s: addresses relative to the right value of esp' % (name, form))
+
+
 def run(ctx, report):
     L = LifterModel(ctx, opmodes=('u32', 'u16'), rich=True)
     I = L.I
@@ -528,6 +610,9 @@ def run(ctx, report):
                              witness='%s on ax = %#06x' % (inst.name, (ah << 8) | al))
             else:
                 R8.ok(iid, sample='%s: %d vectors (al x AF x CF x 5 values of ah) agree with the SDM pseudo-code' % (inst.name, n_vec))
+    # ------------------------------------------------------------------ D9 push / pop through the stack pointer
+    R9 = report.rule('C04.D9', 'push/pop with esp as operand or base register use the value of esp IA-32 prescribes (pop: after the increment; push: before the decrement)', floor=7)
+    stack_operand_rule(ctx, R9, L, sem)
     report.analysed['effects_ref_mnemonics'] = len(eff)
 
     # ------------------------------------------------------------------ D4
